@@ -390,6 +390,14 @@ class ResTarget(object):
     def ping(self, t):
         return t
 
+    def gen(self, n):
+        return _free_gen(n)      # (a generator that does not keep the session instance alive while the stream lingers)
+
+
+def _free_gen(n):
+    for i in range(n):
+        yield i
+
 
 @server.expose
 @server.behavior(instance_mode="session")
